@@ -271,3 +271,76 @@ def run_fapl(prog, rep):
     if n < 2:
         raise AnalysisBroken('R-FAPL: H5Fcreate/H5Fopen call sites vanished (%d)' % n)
     return rule
+
+
+HIDOWN_TABLE = {
+    ('nix::hdf5::H5Group::objectOfType', 'obj'): 'err.check follows H5Oget_info on an id that H5Iis_valid just accepted; the query does not fail for a valid object (error path not reachable in practice)',
+}
+
+
+def run_hid_owner(prog, rep):
+    """a raw HDF5 id kept in a local is handed to its owner (member hid / wrapper object) or closed before anything that can throw:
+    an exception in between leaves the object (for a file: the file, with its access mode) open inside libhdf5"""
+    from ..sem import Sem, term, unwrap, real_args
+    sem = Sem(prog)
+    rule = rep.rule('R-HIDOWN', 'a raw HDF5 id held in a local reaches its owner or is closed before any statement that can throw', floor=1)
+    n = 0
+    for f in sorted(prog.funcs.values(), key=lambda f: (f.file, f.line)):
+        if f.body is None or not (f.q.startswith('nix::hdf5::')):
+            continue
+        for v in sem.local_vars(f).values():
+            if (v.get('ctype') or v.get('type') or '') not in ('hid_t', 'long', 'int64_t') or (v.get('type') or '') != 'hid_t':
+                continue
+            if not v.c or v.c[0] is None:
+                continue
+            src = [c for c in v.c[0].walk() if c.k == 'call' and (c.callee or {}).get('name', '').startswith('H5') and not (c.callee or {}).get('cls')]
+            if not src:
+                continue
+            n += 1
+            lid, name = v.get('lid'), v.get('name')
+            V = ('v', lid, name)
+            key = '%s|%s' % (f.q, name)
+
+            def uses(node):
+                return any(x.k == 'ref' and x.decl.get('lid') == lid for x in node.walk())
+            transfer = None
+            for x in f.walk():
+                if x.id <= v.id:
+                    continue
+                if x.k == 'assign' and term(unwrap(x.c[1])) == V and unwrap(x.c[0]).k == 'member':
+                    transfer = x
+                    break
+                if x.k == 'call' and (x.callee or {}).get('name', '').startswith('H5') and (x.callee or {}).get('name', '').endswith('close') and uses(x):
+                    transfer = x
+                    break
+                if x.k == 'construct' and 'nix::hdf5' in ((x.callee or {}).get('cls') or '') and any(term(unwrap(a)) == V for a in x.c if a is not None):
+                    transfer = x
+                    break
+            tab = HIDOWN_TABLE.get((f.q, name))
+            if transfer is None:
+                rule.check(bool(tab), key, rep.where(v), f.label(), 'tabled: %s' % tab, 'the id obtained from %s is never handed to an owner or closed' % src[0].callee.get('name'))
+                continue
+            risky = []
+            for x in f.walk():
+                if not (v.id < x.id < transfer.id):
+                    continue
+                if x.k == 'throw':
+                    facts = sem.facts_at(f, x.id)
+                    invalid = any(('H5Iis_valid' in repr(t) and name in repr(t) and not pol) or (t[0] == 'b' and t[1] == '<' and t[2] == V and pol) for (t, pol) in facts)
+                    if not invalid:
+                        risky.append('throw at line %s' % x.l)
+                elif x.k == 'call' and x.callee and not ((x.callee.get('name') or '').startswith('H5') and not x.callee.get('cls')):
+                    q = x.callee.get('q') or ''
+                    if q.startswith('nix::') or (x.callee.get('cls') or '').startswith('nix::'):
+                        if x.callee.get('name') in ('h5id', 'isValid', 'c_str'):
+                            continue
+                        risky.append('%s (line %s)' % (x.callee.get('name'), x.l))
+            if risky and tab:
+                rule.ok(key, rep.where(v), f.label(), 'tabled: %s' % tab, nontrivial=False)
+            else:
+                rule.check(not risky, key, rep.where(v), f.label(), 'id from %s goes straight to %s' % (src[0].callee.get('name'), transfer.src(30)),
+                           'the id from %s sits in the local %s while %s can throw: the exception leaves the object open inside libhdf5 (for a file: a refused open keeps the file open with the refused access mode, '
+                           'a later ReadOnly open of the same path inherits write access)' % (src[0].callee.get('name'), name, ', '.join(risky[:3])))
+    if n < 1:
+        raise AnalysisBroken('R-HIDOWN: no raw local HDF5 id found (anchor: H5Group::objectOfType)')
+    return rule
